@@ -99,6 +99,8 @@ pub struct Model {
     pub hint_live_gone: Option<bool>,
     /// instant of the most recent `poll`
     pub last_poll: Option<u64>,
+    /// the latest instant handed to the agent by any call that carries one (poll or send)
+    pub last_seen: Option<u64>,
 }
 
 fn v(p: &str, clause: &str, site: &str, m: String) -> Violation {
@@ -124,7 +126,7 @@ pub fn configured_schedule(tcp: bool, rto_ms: u64, n: u32, last_ms: u64) -> (Vec
 
 impl Model {
     pub fn new(tcp: bool, local: SocketAddr) -> Self {
-        Self { tcp, local, txs: vec![], validated: BTreeSet::new(), remote: None, last_wait: None, dropped_since_wait: false, check_prop: String::new(), tolerated: vec![], instants: vec![], hint_live_gone: None, last_poll: None }
+        Self { tcp, local, txs: vec![], validated: BTreeSet::new(), remote: None, last_wait: None, dropped_since_wait: false, check_prop: String::new(), tolerated: vec![], instants: vec![], hint_live_gone: None, last_poll: None, last_seen: None }
     }
     pub fn live_idx(&self, tid: u128) -> Option<usize> {
         self.txs.iter().position(|t| t.tid == tid && t.status == Status::Live)
@@ -151,6 +153,7 @@ impl Model {
         }
     }
     fn note_instant(&mut self, at: u64, owner: Option<usize>) {
+        self.last_seen = Some(self.last_seen.map_or(at, |p| p.max(at)));
         if self.instants.len() >= 96 {
             self.instants.drain(..32);
         }
@@ -188,9 +191,21 @@ impl Model {
     /// expired request in one sweep and hand out the reports one per call).  In that window no
     /// property says whether the transaction still counts as outstanding: queries, the mutable
     /// handle, a response and a re-use of the id may all go either way.
+    /// (Round 5, fifth white-box review: "as of the latest poll" became "as of the latest instant the
+    /// agent was told, by poll or by send" — an agent may sweep on either; and a transaction whose
+    /// retransmissions were cancelled is over, as far as any property says, as soon as the wait it
+    /// was in has elapsed, whatever its retransmission count.)
     pub fn in_limbo(&self, i: usize) -> bool {
+        self.in_limbo_at(i, None)
+    }
+    /// `now`: the instant carried by the call being judged (it has been handed to the agent too)
+    pub fn in_limbo_at(&self, i: usize, now: Option<u64>) -> bool {
         let tx = &self.txs[i];
-        tx.status == Status::Live && (tx.rc || (tx.k >= tx.intervals_ms.len() && self.last_poll.map_or(false, |p| tx.next_instant() <= p)))
+        let seen = match (self.last_poll.max(now), self.last_seen) {
+            (Some(a), Some(b)) => Some(a.max(b)),
+            (a, b) => a.or(b),
+        };
+        tx.status == Status::Live && (tx.rc || ((tx.sc || tx.k >= tx.intervals_ms.len()) && seen.map_or(false, |p| tx.next_instant() <= p)))
     }
     /// A `TransactionCancelled(tid)` could belong to either of two transactions with this id.
     pub fn ambiguous_cancel(&self, tid: u128) -> bool {
@@ -199,7 +214,7 @@ impl Model {
     /// A `TransactionTimedOut(tid)` could be the owed report of an earlier transaction with this id
     /// or the time-out of the live one (itself past its schedule).
     pub fn ambiguous_timeout(&self, tid: u128, now: u64) -> bool {
-        self.txs.iter().any(|t| t.tid == tid && t.report_pending && (t.status == Status::TimedOut || (t.sc && !t.rc))) && self.live_idx(tid).map_or(false, |i| { let t = &self.txs[i]; t.k >= t.intervals_ms.len() && t.next_instant() <= now })
+        self.txs.iter().any(|t| t.tid == tid && t.report_pending && (t.status == Status::TimedOut || (t.sc && !t.rc))) && self.live_idx(tid).map_or(false, |i| { let t = &self.txs[i]; !t.rc && t.k >= t.intervals_ms.len() && t.next_instant() <= now })
     }
     fn invalidate_wait(&mut self) {
         self.last_wait = None;
@@ -209,7 +224,7 @@ impl Model {
     // -------------------------------------------------------------------------------------------
     pub fn on_send_request(&mut self, tid: u128, dest: SocketAddr, bytes: &[u8], signed: bool, now: u64, reply: &Reply) -> Result<(), Violation> {
         if let Some(i) = self.live_idx(tid) {
-            if self.in_limbo(i) && matches!(reply, Reply::Transmit { .. }) {
+            if self.in_limbo_at(i, Some(now)) && matches!(reply, Reply::Transmit { .. }) {
                 // the transaction was cancelled and only its report is still owed: whether it still
                 // counts as outstanding in that window is not stated by any property.  An agent that
                 // accepts the id again has, for the model, completed the old transaction (its
@@ -308,6 +323,7 @@ impl Model {
     pub fn on_poll(&mut self, now: u64, reply: &Reply) -> Result<PollOutcome, Violation> {
         // (instants may arrive out of order: "the latest poll" is the latest by instant)
         self.last_poll = Some(self.last_poll.map_or(now, |p| p.max(now)));
+        self.last_seen = Some(self.last_seen.map_or(now, |p| p.max(now)));
         // self-consistency with the previous WaitUntil (model-free)
         if let Some((p, t)) = self.last_wait {
             if self.live_count() > 0 {
@@ -414,7 +430,8 @@ impl Model {
                 if let Some(j) = self.txs.iter().position(|t| t.tid == *tid && t.report_pending && (t.status == Status::TimedOut || (t.sc && !t.rc))) {
                     // the owed report of a transaction whose id was re-used after it had expired —
                     // unless the live one with that id has itself run out
-                    let live_expired = self.live_idx(*tid).map_or(false, |i| { let t = &self.txs[i]; t.k >= t.intervals_ms.len() && t.next_instant() <= now });
+                    // (a live one that was cancelled is reported as cancelled, not as timed out)
+                    let live_expired = self.live_idx(*tid).map_or(false, |i| { let t = &self.txs[i]; !t.rc && t.k >= t.intervals_ms.len() && t.next_instant() <= now });
                     // (both could have produced it: the driver has asked the agent which one is gone)
                     let book_on_live = live_expired && self.hint_live_gone.take().unwrap_or(true);
                     if !book_on_live {
